@@ -163,13 +163,15 @@ class ExcelCompiler:
 
             if self.cycles:
                 def _eval(cell, cse_array_address=None):
-                    cell.start_calcs()
+                    if isinstance(cell, _CycleCell):
+                        cell.start_calcs()
                     try:
                         return eval_ctx(
                             cell.formula, cse_array_address=cse_array_address)
                     except Exception:
                         # a failed cell is no longer a work in progress
-                        cell.wip = False
+                        if isinstance(cell, _CycleCell):
+                            cell.wip = False
                         raise
 
             else:
@@ -793,7 +795,8 @@ class ExcelCompiler:
             self._gen_graph(address)
             cell_range = self.cell_map[address]
 
-        if cell_range.needs_calc:
+        if cell_range.needs_calc or (
+                self.cycles and not iterative_eval_tracker.is_calced(cell_range)):
             self.log.debug(f"Evaluating: {cell_range.address}, {cell_range.python_code}")
             if cell_range.address.is_unbounded_range:
                 bounded_addr = str(self.eval(cell_range))
@@ -813,6 +816,8 @@ class ExcelCompiler:
             self.log.info(f"Range {cell_range.address} evaluated to '{data}'")
 
             cell_range.value = data
+            if self.cycles:
+                iterative_eval_tracker.calced(cell_range)
 
         return cell_range.value
 
@@ -1180,6 +1185,9 @@ class _CycleCell(_Cell):
         self._prev_value = None
         self.wip = False
         super().__init__(*args, **kwargs)
+        if self.formula and self._value is None:
+            # assigning the (missing) value marked this cell as calculated
+            iterative_eval_tracker.ns.computed.discard(self)
 
     @property
     def value(self):
